@@ -5,8 +5,9 @@
    GenTraphPFacts1.v):
      6. py_traph_add_page_int_spec on every state with Inv18, root_first and the anchors met on the walk known in RAM
      7. py_traph_add_page_spec, py_traph_add_pages_spec on `run d rs h`; the reports merged by dict.update = list append
-     8. the anchor condition cannot be dropped (reopen with fewer rules: the code raises KeyError, the model skips); it holds on
-        every history that keeps the RAM table in step with the flags (no reopen / clear dropping a rule); examples. *)
+   GenTraphPReach.v: the histories on which the anchor condition holds (every reopen re-supplies the flagged rules; in particular no
+   reopen), and the two theorems there without extra hypothesis.  GenTraphPEx.v: examples by vm_compute, the theorems instantiated,
+   and the proof that the anchor condition cannot be dropped (reopen with fewer rules: the code raises KeyError, the model skips). *)
 From Coq Require Import List NArith Bool Lia Arith.
 Import ListNotations.
 From Traph Require Import Bytes Consts Layout Helpers Rules Tst TstDefs Traph Spec Ops RefDefs Traphw TraceDefs Codec CodecFacts
